@@ -863,10 +863,372 @@ func psSanity(h *hctx) {
 	}
 }
 
+// ---- two-phase context: the non-atomic window of a context's cancellation ---------------------------------------------
+//
+// Cancelling a std context is not atomic: Err()/Done() report the cancellation first, the registered AfterFuncs (and
+// children) are notified afterwards. psCtx puts both phases under harness control. It embeds a Context, hides the std
+// cancelCtx key (Value returns nil) and implements `AfterFunc(func()) (stop func() bool)`, which context.AfterFunc uses when
+// the parent provides it.
+
+type psCtx struct {
+	context.Context
+	mu    sync.Mutex
+	done  chan struct{}
+	err   error
+	fns   map[int]func()
+	next  int
+	fired bool
+}
+
+func newPsCtx() *psCtx {
+	return &psCtx{Context: context.Background(), done: make(chan struct{}), fns: map[int]func(){}}
+}
+
+func (c *psCtx) Done() <-chan struct{}       { return c.done }
+func (c *psCtx) Value(any) any               { return nil }
+func (c *psCtx) Deadline() (time.Time, bool) { return time.Time{}, false }
+
+func (c *psCtx) Err() error {
+	c.mu.Lock()
+	defer c.mu.Unlock()
+	return c.err
+}
+
+func (c *psCtx) AfterFunc(f func()) (stop func() bool) {
+	c.mu.Lock()
+	defer c.mu.Unlock()
+	if c.fired {
+		go f()
+		return func() bool { return false }
+	}
+	id := c.next
+	c.next++
+	c.fns[id] = f
+	return func() bool {
+		c.mu.Lock()
+		defer c.mu.Unlock()
+		if _, ok := c.fns[id]; ok {
+			delete(c.fns, id)
+			return true
+		}
+		return false
+	}
+}
+
+// phase1: Err() and Done() report the cancellation; nothing registered has been notified yet.
+func (c *psCtx) phase1() {
+	c.mu.Lock()
+	defer c.mu.Unlock()
+	if c.err == nil {
+		c.err = context.Canceled
+		close(c.done)
+	}
+}
+
+// phase2: the registered AfterFuncs run, each on its own goroutine (as the std library does).
+func (c *psCtx) phase2() int {
+	c.mu.Lock()
+	fns := c.fns
+	c.fns = map[int]func(){}
+	c.fired = true
+	c.mu.Unlock()
+	for _, f := range fns {
+		go f()
+	}
+	return len(fns)
+}
+
+const (
+	psTPIterInWindow  = iota // phase 1; run the iterator (must return without yielding); phase 2
+	psTPIterFirst            // the iterator is running when phase 1 happens; phase 2 afterwards
+	psTPIterFirstFast        // the iterator is running; phase 1 and phase 2 back to back
+	psTPIterAfter            // phase 1; phase 2; then the iterator is run
+	psTPNeverRun             // phase 1; phase 2; the iterator is never run
+	psTPBreakThenCancel      // the iterator receives one value and breaks; then phase 1; phase 2
+	psTPBreakInWindow        // the iterator receives one value; phase 1; it breaks; phase 2
+	psTPNilYield             // yield == nil before phase 1 (documented panic; must still unsubscribe); then both phases
+	psTPNilYieldInWindow     // phase 1; yield == nil; phase 2
+	psTPNilYieldAfter        // phase 1; phase 2; yield == nil
+	psTPSendBlockedWindow    // a Send is delivering to the not-yet-run iterator; phase 1; run the iterator; phase 2
+	psTPSendBlockedNever     // a Send is delivering to the never-run iterator; phase 1; phase 2 (the AfterFunc absorbs the copy)
+	psTPN
+)
+
+var psTPName = [psTPN]string{"iter_in_window", "iter_first", "iter_first_fast", "iter_after", "never_run", "break_then_cancel",
+	"break_in_window", "nil_yield", "nil_yield_in_window", "nil_yield_after", "send_blocked_window", "send_blocked_never"}
+
+// psTwoPhase runs one SubscribeContext life cycle on a two-phase context, in the given order of events, optionally next to a
+// standing manual subscriber, and checks: the iterator returns (without yielding once the context reports cancelled), no
+// panic, the subscription is released exactly once (Add(0) back to the standing count), later Sends return promptly with
+// exactly the standing subscribers, instance not broken.
+func psTwoPhase(h *hctx, id string, variant int, withOther bool) bool {
+	if psHangs.Load() >= 3 {
+		h.count("cases_skipped_after_3_hangs", 1)
+		return false
+	}
+	deadline := time.Duration(h.pi("deadline_ms", 3000)) * time.Millisecond
+	r := &psRun{h: h, id: id, x: NewChanPubSub(make(chan int)), begin: make(chan struct{})}
+	x := r.x
+	sends, receipts := 0, 0
+	finish := func() {
+		h.count("twophase_"+psTPName[variant], 1)
+		h.count("cases", 1)
+		h.line("F pubsub_case %s %d %d %d %d %d %d %d | 1", id, 1, 1+boolInt(withOther), 1, sends, receipts, 0, 0)
+	}
+	hung := func(what string) bool {
+		r.mon("C07", "hang (two-phase context, %s): %s did not complete within %v", psTPName[variant], what, deadline)
+		for _, p := range r.panics {
+			r.mon("C07", "false panic under contract-following use: %s", p)
+		}
+		h.count("cases_hung", 1)
+		psHangs.Add(1)
+		finish()
+		return false
+	}
+	// the standing manual subscriber
+	stay := 0
+	otherStop, otherDone := make(chan struct{}), make(chan struct{})
+	var otherGot atomic.Int32
+	if withOther {
+		stay = 1
+		joined := make(chan struct{})
+		go func() {
+			defer close(otherDone)
+			defer r.guard("standing subscriber")
+			x.Add(1)
+			close(joined)
+			for {
+				select {
+				case <-x.C():
+					otherGot.Add(1)
+					x.Wait()
+				case <-otherStop:
+					x.Add(-1)
+					return
+				}
+			}
+		}()
+		if !psWait([]chan struct{}{joined}, deadline) {
+			return hung("Add(+1) of the standing subscriber")
+		}
+	} else {
+		close(otherDone)
+	}
+	ctx := newPsCtx()
+	var seq func(yield func(int) bool)
+	if !r.call("SubscribeContext", deadline, func() { seq = x.SubscribeContext(ctx) }) || seq == nil {
+		return hung("SubscribeContext")
+	}
+	// the iterator, on its own goroutine: yields are counted; `breakAt` > 0: break after that many; gate: wait before breaking
+	var yields atomic.Int32
+	var yieldedAfterCancel atomic.Int32
+	iterDone := make(chan struct{})
+	gate := make(chan struct{})
+	gotOne := make(chan struct{}, 8)
+	runIter := func(breakAt int, gated bool) {
+		go func() {
+			defer close(iterDone)
+			defer r.guard("iterator (two-phase context)")
+			for range seq {
+				n := int(yields.Add(1))
+				gotOne <- struct{}{}
+				if breakAt > 0 && n >= breakAt {
+					if gated {
+						<-gate
+					}
+					break
+				}
+			}
+		}()
+	}
+	nilYield := func() bool {
+		var pv interface{}
+		ok := r.call("iterator(nil)", deadline, func() {
+			defer func() { pv = recover() }() // the documented misuse panic; anything it leaves behind is checked below
+			seq(nil)
+		})
+		_ = pv
+		return ok
+	}
+	waitIter := func() bool { return psWait([]chan struct{}{iterDone}, deadline) }
+	// a Send on its own goroutine
+	type sres struct{ n int }
+	sendCh := make(chan sres, 4)
+	goSend := func(v int) {
+		sends++
+		go func() {
+			defer r.guard("sender (two-phase context)")
+			sendCh <- sres{x.Send(v)}
+		}()
+	}
+	waitSend := func(what string, want int) bool {
+		select {
+		case s := <-sendCh:
+			if s.n != want {
+				r.mon("C06", "two-phase context (%s): %s returned %d, expected %d", psTPName[variant], what, s.n, want)
+			}
+			return true
+		case <-time.After(deadline):
+			return false
+		}
+	}
+	settle := func() { time.Sleep(time.Duration(50+h.rng.Intn(150)) * time.Microsecond) }
+	switch variant {
+	case psTPIterInWindow:
+		ctx.phase1()
+		runIter(0, false)
+		if !waitIter() {
+			return hung("the iterator started after Err()/Done() reported the cancellation")
+		}
+		yieldedAfterCancel.Store(yields.Load())
+		ctx.phase2()
+	case psTPIterFirst, psTPIterFirstFast:
+		runIter(0, false)
+		settle()
+		ctx.phase1()
+		if variant == psTPIterFirst {
+			if !waitIter() {
+				return hung("the running iterator after cancellation")
+			}
+		}
+		ctx.phase2()
+		if !waitIter() {
+			return hung("the running iterator after cancellation")
+		}
+	case psTPIterAfter:
+		ctx.phase1()
+		ctx.phase2()
+		settle()
+		runIter(0, false)
+		if !waitIter() {
+			return hung("the iterator started after the cancellation completed")
+		}
+		yieldedAfterCancel.Store(yields.Load())
+	case psTPNeverRun:
+		ctx.phase1()
+		settle()
+		ctx.phase2()
+	case psTPBreakThenCancel, psTPBreakInWindow:
+		runIter(1, variant == psTPBreakInWindow)
+		settle()
+		goSend(7001)
+		select {
+		case <-gotOne:
+			receipts++
+		case <-time.After(deadline):
+			return hung("delivery to the running iterator")
+		}
+		if variant == psTPBreakInWindow {
+			ctx.phase1()
+			close(gate)
+		}
+		if !waitIter() {
+			return hung("the iterator breaking out")
+		}
+		if !waitSend("Send to the iterator"+map[bool]string{true: " and the standing subscriber", false: ""}[withOther], 1+stay) {
+			return hung("Send to the running iterator")
+		}
+		ctx.phase1()
+		ctx.phase2()
+	case psTPNilYield:
+		if !nilYield() {
+			return hung("iterator(nil)")
+		}
+		ctx.phase1()
+		ctx.phase2()
+	case psTPNilYieldInWindow:
+		ctx.phase1()
+		if !nilYield() {
+			return hung("iterator(nil)")
+		}
+		ctx.phase2()
+	case psTPNilYieldAfter:
+		ctx.phase1()
+		ctx.phase2()
+		settle()
+		if !nilYield() {
+			return hung("iterator(nil)")
+		}
+	case psTPSendBlockedWindow, psTPSendBlockedNever:
+		goSend(7002) // blocks: one copy is for the subscription whose iterator has not been run
+		settle()
+		ctx.phase1()
+		if variant == psTPSendBlockedWindow {
+			runIter(0, false)
+			if !waitIter() {
+				return hung("the iterator started after Err()/Done() reported the cancellation")
+			}
+			yieldedAfterCancel.Store(yields.Load())
+		}
+		ctx.phase2()
+		if !waitSend("Send overlapping the cancellation", stay) {
+			return hung("Send that was delivering to the cancelled subscription")
+		}
+	}
+	if yieldedAfterCancel.Load() != 0 {
+		r.mon("C06", "two-phase context (%s): iterator started after the context reported cancelled yielded %d values",
+			psTPName[variant], yieldedAfterCancel.Load())
+	}
+	// released exactly once: the count returns to the standing subscribers (the AfterFunc runs on its own goroutine: poll)
+	end := time.Now().Add(deadline)
+	for int(x.subscribers.Load()) != stay && time.Now().Before(end) {
+		time.Sleep(50 * time.Microsecond)
+	}
+	time.Sleep(100 * time.Microsecond) // a second (wrong) unsubscribe would land here
+	got := math.MinInt32
+	if !r.call("Add(0)", deadline, func() { got = x.Add(0) }) {
+		return hung("Add(0)")
+	}
+	if got != stay {
+		r.mon("C07", "two-phase context (%s): after cancellation and the iterator's return Add(0) = %d, subscriptions minus unsubscriptions = %d",
+			psTPName[variant], got, stay)
+	}
+	// a later Send returns promptly, reaching exactly the standing subscriber
+	before := otherGot.Load()
+	goSend(7003)
+	if !waitSend("Send after the cancellation", stay) {
+		return hung("Send after the cancelled subscription should be gone")
+	}
+	if withOther {
+		if otherGot.Load() != before+1 {
+			r.mon("C06", "two-phase context (%s): the standing subscriber did not receive the later Send", psTPName[variant])
+		}
+		receipts += int(otherGot.Load())
+		close(otherStop)
+		if !psWait([]chan struct{}{otherDone}, deadline) {
+			return hung("Add(-1) of the standing subscriber")
+		}
+		goSend(7004)
+		if !waitSend("Send after everybody left", 0) {
+			return hung("Send after everybody left")
+		}
+	}
+	select {
+	case <-x.broken:
+		r.mon("C07", "two-phase context (%s): instance is broken", psTPName[variant])
+	default:
+	}
+	r.mu.Lock()
+	for _, p := range r.panics {
+		r.mon("C07", "false panic under contract-following use: %s", p)
+	}
+	r.mu.Unlock()
+	finish()
+	return true
+}
+
 func init() {
 	register("C06K2", func(h *hctx) {
 		hangs := 0
 		rng := rand.New(rand.NewSource(h.seed + int64(h.pi("salt", 0))*1000003)) // C06 and C07 explore different programs
+		// the SubscribeContext life cycle inside the two phases of a context's cancellation, every order, deterministic
+		for rep := 0; rep < h.pi("twophase_reps", 2); rep++ {
+			for variant := 0; variant < psTPN; variant++ {
+				for _, other := range []bool{false, true} {
+					psTwoPhase(h, fmt.Sprintf("k2-%d.%d-ctx%d.%d.%d", h.seed, h.pi("salt", 0), variant, boolInt(other), rep), variant, other)
+				}
+			}
+		}
 		for i := 0; i < h.n && hangs < 3; i++ {
 			plan := psRandomPlan(rng)
 			if !psCase(h, fmt.Sprintf("k2-%d.%d-%d", h.seed, h.pi("salt", 0), i), plan) {
